@@ -5,7 +5,7 @@ fault positions come from the behaviour) and the abstract state is compared afte
 from fractions import Fraction as F
 
 from harness import gen_explainer as G
-from harness.fieldp import qpair
+from harness.fieldp import NonFinite, qpair
 from harness.proxies import TapeMismatch
 
 
@@ -82,6 +82,10 @@ def replay(beh, cfg, tol=None):
         return [("replay.draw_range" if e.reason == "range" else "replay.not_followed", -1, str(e))], None, sc
     except G.NotObservable as e:
         return [("replay.not_followed", -1, "abstract state not observable: %s" % e)], None, sc
+    except NonFinite as e:
+        # exact inputs, and yet the explainer's state is NaN / infinite (the specification's values are rationals)
+        return [("replay.state.imp", 0, "the implementation reached the non-finite value %s" % e),
+                ("replay.outcome", 0, "the implementation reached the non-finite value %s" % e)], None, sc
     raws = extra["raws"]
     extra_rows = extra["rows_after"]
     exact = tol is None
